@@ -9,7 +9,7 @@
     [outs_match]: the outputs agree pointwise (All up to permutation) and no model output is a
     failure ([RFail]: Panic or Hang). *)
 From Coq Require Import List NArith Permutation.
-From Algo.C02 Require Import Model Spec ProofsChain ProofsLinear ProofsPrime ProofsQuad ProofsDouble.
+From Algo.C02 Require Import Model Spec ProofsChain ProofsLinear ProofsPrime ProofsQuad ProofsDouble ProofsGap.
 Import ListNotations.
 
 (** Separate chaining: full refinement, for every key/value type with a decidable equality, every
@@ -56,19 +56,42 @@ Definition C02_refines_quadratic_full : Prop :=
     is sound, the first (m+1)/2 quadratic probes of a prime-sized table are pairwise distinct, fewer than
     (m+1)/2 slots are ever non-nil (live + soft-deleted), n counts the live entries, keys are pairwise
     distinct, every entry is reachable along its probe sequence, resizes never nest.
-    Options: maxLF <= 1/2, maxLF*31 >= 1, 3*minLF <= maxLF (the defaults 1/8, 1/2 included); capacities:
-    the default or any prime >= 31.  The hypothesis is checked at run time: the correspondence compares
+    Options ([valid_soft]): maxLF <= 1/2, maxLF*31 >= 1, and either 3*minLF <= maxLF or 2*minLF <= maxLF
+    with maxLF = 1/(2c) (1/2, 1/4, 1/8, ...; a parity argument: m and the new size are odd) — the
+    defaults 1/8, 1/2 and the pairs (1/4,1/2), (1/8,1/4) included.  For pairs such as (3/16, 3/8) the
+    real code does nest a resize inside a shrink (m = 107, n = 20: new size 53, the 20th re-insertion
+    grows again); those are covered by the correspondence only.  Capacities: the default or any prime >= 31.  The hypothesis is checked at run time: the correspondence compares
     the table size after every resize with the implementation's. *)
 Theorem C02_refines_quadratic_partial : prime_gap -> C02_refines_quadratic_full.
 Proof. intros G K V eqb eqv hash minlf maxlf He Hv cap Hc orc Ho ops. apply quad_refines; auto. Qed.
 
-(** Double hashing with soft deletion (after the fixes of D02, D03): same shape.  Proved in addition to
+(** The same without any hypothesis, for histories of bounded length: a Put grows the table only when
+    (n+1)/m >= maxLF and n is at most the number of operations so far, so a history of [length ops]
+    operations only needs primes in [2m, 4m+1] for 2m <= 2*(length ops)/maxLF; the prime gap is checked
+    by computation up to [gap_bound] = 2^31 (C02/ProofsGap.v).  With the default maxLF = 1/2 this covers
+    every history of up to 2^29 operations. *)
+Theorem C02_refines_quadratic_bounded :
+  forall (K V : Type) (eqb : K -> K -> bool) (eqv : V -> V -> bool) (hash : K -> N) (minlf maxlf : lf),
+    (forall a b, eqb a b = true <-> a = b) ->
+    valid_soft minlf maxlf ->
+    forall (cap : nat), valid_cap_prime cap ->
+    forall (orc : nat -> nat -> list nat -> list nat), (forall i j l, Permutation (orc i j l) l) ->
+    forall ops : list (op K V),
+      2 * lf_den maxlf * length ops <= lf_num maxlf * gap_bound ->
+      outs_match K V (run K V eqb eqv hash minlf maxlf orc Quadratic cap ops) (run_spec K V eqb eqv ops).
+Proof.
+  intros K V eqb eqv hash minlf maxlf He Hv cap Hc orc Ho ops Hl.
+  apply (quad_refines_gen K V eqb eqv hash minlf maxlf He Hv gap_bound (length ops) prime_gap_checked Hl); auto.
+Qed.
+
+(** Double hashing with soft deletion (after the fixes of D02, D03): same shape; options ([valid_dbl]):
+    maxLF <= 1/2, maxLF*31 >= 1, 2*minLF <= maxLF (every pair with ratio >= 2).  Proved in addition to
     the items listed for quadratic probing: the step h2 computed by [probe] is never a multiple of the
     prime size, so the m probes h1 + i*h2 are pairwise distinct, and (live + soft-deleted) < m always. *)
 Definition C02_refines_double_full : Prop :=
   forall (K V : Type) (eqb : K -> K -> bool) (eqv : V -> V -> bool) (hash : K -> N) (minlf maxlf : lf),
     (forall a b, eqb a b = true <-> a = b) ->
-    valid_soft minlf maxlf ->
+    valid_dbl minlf maxlf ->
     forall (cap : nat), valid_cap_prime cap ->
     forall (orc : nat -> nat -> list nat -> list nat), (forall i j l, Permutation (orc i j l) l) ->
     forall ops : list (op K V),
@@ -76,6 +99,24 @@ Definition C02_refines_double_full : Prop :=
 
 Theorem C02_refines_double_partial : prime_gap -> C02_refines_double_full.
 Proof. intros G K V eqb eqv hash minlf maxlf He Hv cap Hc orc Ho ops. apply double_refines; auto. Qed.
+
+Theorem C02_refines_double_bounded :
+  forall (K V : Type) (eqb : K -> K -> bool) (eqv : V -> V -> bool) (hash : K -> N) (minlf maxlf : lf),
+    (forall a b, eqb a b = true <-> a = b) ->
+    valid_dbl minlf maxlf ->
+    forall (cap : nat), valid_cap_prime cap ->
+    forall (orc : nat -> nat -> list nat -> list nat), (forall i j l, Permutation (orc i j l) l) ->
+    forall ops : list (op K V),
+      2 * lf_den maxlf * length ops <= lf_num maxlf * gap_bound ->
+      outs_match K V (run K V eqb eqv hash minlf maxlf orc Double cap ops) (run_spec K V eqb eqv ops).
+Proof.
+  intros K V eqb eqv hash minlf maxlf He Hv cap Hc orc Ho ops Hl.
+  apply (double_refines_gen K V eqb eqv hash minlf maxlf He Hv gap_bound (length ops) prime_gap_checked Hl); auto.
+Qed.
+
+(** [gap_bound] is 2^31 *)
+Example C02_gap_bound_value : N.of_nat gap_bound = 2147483648%N.
+Proof. exact gap_bound_N. Qed.
 
 (** The instances of [prime_gap] for every size up to 2300 (six growths from the default capacity)
     are checked by computation; beyond that it is Bertrand's postulate. *)
@@ -121,9 +162,14 @@ Proof.
 Qed.
 
 Example C02_soft_defaults_valid :
-  valid_soft {| lf_num := 1; lf_den := 8 |} {| lf_num := 1; lf_den := 2 |} /\ valid_cap_prime 0 /\ valid_cap_prime 67.
+  valid_soft {| lf_num := 1; lf_den := 8 |} {| lf_num := 1; lf_den := 2 |} /\
+  valid_soft {| lf_num := 1; lf_den := 4 |} {| lf_num := 1; lf_den := 2 |} /\
+  valid_dbl {| lf_num := 3; lf_den := 16 |} {| lf_num := 3; lf_den := 8 |} /\
+  valid_cap_prime 0 /\ valid_cap_prime 67.
 Proof.
   split; [unfold valid_soft; simpl; repeat split; auto with arith|].
+  split; [unfold valid_soft; simpl; split; [|split; [|split; [|split]]]; auto with arith; right; repeat split; auto with arith|].
+  split; [unfold valid_dbl; simpl; repeat split; auto 20 with arith|].
   split; [left; reflexivity|right; split; [|reflexivity]].
   repeat constructor.
 Qed.
@@ -132,4 +178,6 @@ Print Assumptions C02_refines_chain.
 Print Assumptions C02_refines_linear.
 Print Assumptions C02_refines_quadratic_partial.
 Print Assumptions C02_refines_double_partial.
+Print Assumptions C02_refines_quadratic_bounded.
+Print Assumptions C02_refines_double_bounded.
 Print Assumptions C02_prime_gap_checked_upto_2300.
